@@ -11,7 +11,7 @@ CRASHPOINTS = ["meta_invalidated", "dir_removed", "dir_created", "index_created"
 RULE = ("histories = prior directory state x injected fault x (clean start | second fault then clean start). Prior states: absent; valid "
         "current; written by another version (also by a patch / minor / pre-release sibling of the running version, over the current index, a foreign index of the same size, or an index with another layout under the same field names); written for other data (a foreign index with the same schema whose documents answer the probe "
         "phrases with poisoned values, meta claiming an old hash or another version); meta.json missing / empty / truncated at several bytes / "
-        "not JSON / JSON of the wrong shape; index directory missing / empty / without tantivy's meta.json / with a garbage one; plus every "
+        "not JSON / JSON of the wrong shape; the product of nine meta.json kinds x seven index kinds (current, foreign, same-size foreign, other tokenizer, other field names, missing, empty); index directory missing / empty / without tantivy's meta.json / with a garbage one; plus every "
         "state a crash leaves behind. Faults: process abort at each named cfg(anything_verif) crash point (the CRASHPOINT marker and SIGABRT "
         "are checked; an unreached point is recorded as such and the run counts as a clean start), and kill -9 injected by strace at EVERY "
         "openat/write/rename/fdatasync/unlink/mkdir call of a rebuild (counted per thread on a traced clean start; quick: from three prior states, thorough: from all, plus double kills); an injected I/O error (ENOSPC, EIO, "
@@ -202,6 +202,37 @@ def st_sibling(version, index_kind):
         json.dump({"version": version, "database_hash": ctx["hash"]}, open(_meta_path(home), "w"))
     return f
 
+META_KINDS = {
+    "old-hash": lambda ctx: json.dumps({"version": ctx["version"], "database_hash": "00000000000000000000000000000000"}).encode(),
+    "sibling-version": lambda ctx: json.dumps({"version": version_siblings(ctx["version"])[0], "database_hash": ctx["hash"]}).encode(),
+    "other-version": lambda ctx: json.dumps({"version": "0.0.9", "database_hash": ctx["hash"]}).encode(),
+    "missing": None,
+    "empty": lambda ctx: b"",
+    "garbage": lambda ctx: b"\x00\xff not json at all \x7f",
+    "hash-only": lambda ctx: json.dumps({"database_hash": ctx["hash"]}).encode(),
+    "version-only": lambda ctx: json.dumps({"version": ctx["version"]}).encode(),
+    "hash-null": lambda ctx: json.dumps({"version": ctx["version"], "database_hash": None}).encode(),
+}
+INDEX_KINDS = ["valid", "foreign", "foreign-same-size", "foreign-words-layout", "foreign-other-fields", "missing", "empty"]
+
+def st_combo(meta_kind, index_kind):
+    """Prior states composed from independent parts: what meta.json says x what the index directory holds. (meta.json naming the
+    current version AND hash over a foreign index is left out: no run can produce it and the tool cannot detect it.) Seed C15-h needs a
+    version-less meta.json next to an index with other field names - a pair no list of single named states contains."""
+    def f(ctx, home, insp):
+        os.makedirs(os.path.join(home, "facts"))
+        idx = os.path.join(home, "facts", "index")
+        if index_kind == "valid":
+            shutil.copytree(os.path.join(ctx["valid_home"], "facts", "index"), idx)
+        elif index_kind == "empty":
+            os.makedirs(idx)
+        elif index_kind != "missing":
+            shutil.copytree(os.path.join(ctx["valid_home"], index_kind), idx)
+        content = META_KINDS[meta_kind]
+        if content is not None:
+            open(_meta_path(home), "wb").write(content(ctx))
+    return f
+
 def st_meta(content):
     def f(ctx, home, insp):
         st_valid(ctx, home, insp)
@@ -245,6 +276,13 @@ def states(ctx):
     for v in version_siblings(ctx["version"]):
         for kind in ("valid", "foreign", "layout"):
             S["sibling-version-%s-index-%s" % (v, kind)] = st_sibling(v, kind)
+    for mk in META_KINDS:
+        for ik in INDEX_KINDS:
+            if ik in ("foreign-words-layout", "foreign-other-fields") and mk in ("old-hash", "version-only", "hash-null"):
+                # meta.json naming THIS version over an index in another layout: the layout is a function of the version, so no
+                # release can have written this pair, and the tool (which trusts a matching version) cannot tell - not demanded
+                continue
+            S["combo:%s+%s" % (mk, ik)] = st_combo(mk, ik)
     S["meta-missing"] = st_meta(None)
     S["meta-empty"] = st_meta(b"")
     for k in (1, len(valid_meta) // 2, len(valid_meta) - 1):
@@ -469,6 +507,7 @@ def prepare(binp):
         build_foreign_template(ctx, d, os.path.join(valid_home, "foreign"), False)
         build_foreign_template(ctx, d, os.path.join(valid_home, "foreign-same-size"), True)
         build_foreign_template(ctx, d, os.path.join(valid_home, "foreign-words-layout"), True, "words")
+        build_foreign_template(ctx, d, os.path.join(valid_home, "foreign-other-fields"), True, "fields")
     return ctx
 
 def run(tier, seed):
@@ -480,6 +519,14 @@ def run(tier, seed):
     try:
         snames = list(states(ctx))
         hs = []
+        combos = [s for s in snames if s.startswith("combo:")]
+        snames = [s for s in snames if not s.startswith("combo:")]
+        for s in combos:
+            # composed states: a clean start, the three earliest crash points (before anything of the old directory is gone) and two
+            # random ones, each followed by clean starts
+            hs.append({"state": s, "faults": [], "second_clean": True})
+            for c in ["meta_invalidated", "dir_removed", "dir_created"] + [rng.choice(CRASHPOINTS) for _ in range(2 if tier == "quick" else 8)]:
+                hs.append({"state": s, "faults": [c], "second_clean": True})
         for s in snames:
             hs.append({"state": s, "faults": [], "second_clean": True})
             for c in CRASHPOINTS:
@@ -539,7 +586,7 @@ def run(tier, seed):
                   assumptions=["process aborts / SIGKILL model crashes (page cache survives); power loss with unsynced data is out of reach of this harness",
                                "`this version and data hash` is what a clean build of the current tree writes into meta.json",
                                "the state `foreign index + meta claiming the CURRENT hash` is not generated: no run can produce it and the tool cannot detect it"],
-                  extra={"syscall_kill_sweep": {s: c for s, c in sweep_counts.items()}, "crash_points": CRASHPOINTS, "crash_points_fired": fired, "prior_states": snames, "probe_phrases": len(ctx["probes"])},
+                  extra={"syscall_kill_sweep": {s: c for s, c in sweep_counts.items()}, "crash_points": CRASHPOINTS, "crash_points_fired": fired, "prior_states": snames + combos, "probe_phrases": len(ctx["probes"])},
                   min_eval=50)
 
 def replay(path):
